@@ -82,7 +82,7 @@ def build(p):
         else:
             base = H.TapExecutor(Executors.sync(name="s"), "tap")
         exact = 0 if (flavour == "sync" and len(jobs) > 1) else 1
-        if pol["kind"] == "exc":
+        if pol["kind"] == "exc" and not any(jb.get("percall") for jb in jobs):
             E.emit("Cfg", f=exact, s="exc", a=pol["max_attempts"], b=pol["sleep"], c=pol.get("exponent", 2),
                    k=pol.get("max_sleep", 120000))
         else:
